@@ -8,7 +8,7 @@
     - [raw_name_len] of the pointer-free wire form is its length.
     None of them reaches a Panic site or runs out of fuel. *)
 
-From DV Require Import Model.Base Model.NameCheck Model.Parser Model.Readers Spec.NameSpec
+From DV Require Import Model.Base Model.NameCheck Model.Parser Model.Readers Spec.NameSpec Spec.PacketSpec Spec.RecordSpec
   Proofs.ListLemmas Proofs.Hoare Proofs.NameIff.
 From Coq Require Import ZArith ZifyBool ZifyNat ZifyN.
 Ltac Zify.zify_post_hook ::= Z.div_mod_to_equations.
@@ -134,9 +134,6 @@ End S.
 
 (** The printed form is the labels joined by dots: policy labels are non-empty and hold no dot,
     so nothing is escaped and the separator test on the accumulator is a test for "first label". *)
-Definition dotted (ls : list bytes) : bytes :=
-  match ls with [] => [] | l :: r => l ++ flat_map (fun x => 46%N :: x) r end.
-
 Lemma escape_dots_id l : forallb label_char_ok l = true -> escape_dots l = l.
 Proof.
   induction l as [|c l IH]; [reflexivity|]. cbn [forallb escape_dots flat_map]. intros H.
